@@ -73,6 +73,7 @@ func c16(c *Ctx) {
 	r.Rule("LOCK: arbitratorImpl.waitingCollection under arbitratorImpl.mu; filter.arbitratedPodMigrationJobs under filter.arbitratedMapLock")
 	c16round(c, arbitratorPkg)
 	c16accounting(c, arbitratorPkg)
+	c16visitors(c, arbitratorPkg)
 	c.RunLock("LOCK", LockCfg{Pkg: arbitratorPkg, Type: "arbitratorImpl", Mutex: "mu", Guarded: []string{"waitingCollection"}, MinFuncs: 4})
 	c.RunLock("LOCK", LockCfg{Pkg: arbitratorPkg, Type: "filter", Mutex: "arbitratedMapLock", Guarded: []string{"arbitratedPodMigrationJobs"}, MinFuncs: 3})
 }
